@@ -27,6 +27,35 @@ type miniSchema struct {
 	Props    map[string]string `json:"props"` // key → JSON type
 	Required []string          `json:"required"`
 	NoExtra  bool              `json:"no_extra"`
+	// compound keywords over "required" sets: exactly one / at least one of the sets must be
+	// present; Not lists keys that must be absent
+	OneOf [][]string `json:"one_of,omitempty"`
+	AnyOf [][]string `json:"any_of,omitempty"`
+	Not   []string   `json:"not,omitempty"`
+}
+
+func reqBranches(sets [][]string) []any {
+	var out []any
+	for _, set := range sets {
+		out = append(out, map[string]any{"required": set})
+	}
+	return out
+}
+
+func (s miniSchema) branchCount(sets [][]string, d map[string]any) int {
+	n := 0
+	for _, set := range sets {
+		all := true
+		for _, k := range set {
+			if _, ok := d[k]; !ok {
+				all = false
+			}
+		}
+		if all {
+			n++
+		}
+	}
+	return n
 }
 
 func (s miniSchema) JSON() string {
@@ -38,11 +67,37 @@ func (s miniSchema) JSON() string {
 	if req == nil {
 		req = []string{}
 	}
-	b, _ := json.MarshalIndent(map[string]any{"$schema": "http://json-schema.org/draft-07/schema#", "type": "object", "additionalProperties": !s.NoExtra, "properties": props, "required": req}, "", "  ")
+	doc := map[string]any{"$schema": "http://json-schema.org/draft-07/schema#", "type": "object", "additionalProperties": !s.NoExtra, "properties": props, "required": req}
+	if len(s.OneOf) > 0 {
+		doc["oneOf"] = reqBranches(s.OneOf)
+	}
+	if len(s.AnyOf) > 0 {
+		doc["anyOf"] = reqBranches(s.AnyOf)
+	}
+	if len(s.Not) > 0 {
+		doc["not"] = map[string]any{"anyOf": reqBranches(func() (o [][]string) {
+			for _, k := range s.Not {
+				o = append(o, []string{k})
+			}
+			return
+		}())}
+	}
+	b, _ := json.MarshalIndent(doc, "", "  ")
 	return string(b)
 }
 
 func (s miniSchema) conforms(d map[string]any) bool {
+	if len(s.OneOf) > 0 && s.branchCount(s.OneOf, d) != 1 {
+		return false
+	}
+	if len(s.AnyOf) > 0 && s.branchCount(s.AnyOf, d) == 0 {
+		return false
+	}
+	for _, k := range s.Not {
+		if _, ok := d[k]; ok {
+			return false
+		}
+	}
 	for _, k := range s.Required {
 		if _, ok := d[k]; !ok {
 			return false
@@ -112,6 +167,10 @@ var c12Custom = []miniSchema{
 	{Props: map[string]string{"owner": "string", "level": "integer", "strict": "boolean"}, Required: []string{"owner"}, NoExtra: true},
 	{Props: map[string]string{"team": "string", "size": "integer"}, Required: []string{"team"}, NoExtra: true},
 	{Props: map[string]string{"owner": "string", "level": "integer"}, Required: nil, NoExtra: false},
+	// exactly one of prefix / suffix; at least one of team / owner; never both legacy keys' successor and the legacy key
+	{Props: map[string]string{"prefix": "string", "suffix": "string", "level": "integer"}, OneOf: [][]string{{"prefix"}, {"suffix"}}, NoExtra: true},
+	{Props: map[string]string{"team": "string", "owner": "string", "size": "integer", "legacy": "boolean"}, AnyOf: [][]string{{"team"}, {"owner"}}, Not: []string{"legacy"}, NoExtra: true},
+	{Props: map[string]string{"a": "string", "b": "string", "c": "string"}, Required: []string{"a"}, OneOf: [][]string{{"b"}, {"c"}, {"a", "b"}}, NoExtra: false},
 }
 
 type c12Pkg struct {
@@ -193,7 +252,60 @@ func c12Data(r *core.Rng, s miniSchema, kind string) map[string]any {
 			d[k] = val(s.Props[k])
 		}
 	}
+	// make the draw satisfy the compound keywords (the kinds below then break one thing)
+	compound := len(s.OneOf)+len(s.AnyOf)+len(s.Not) > 0
+	if compound {
+		for _, k := range s.Not {
+			delete(d, k)
+		}
+		for tries := 0; tries < 40 && !s.conforms(d); tries++ {
+			if len(s.OneOf) > 0 {
+				keep := s.OneOf[r.Intn(len(s.OneOf))]
+				for _, set := range s.OneOf {
+					for _, k := range set {
+						if !contains(keep, k) && !contains(s.Required, k) {
+							delete(d, k)
+						}
+					}
+				}
+				for _, k := range keep {
+					d[k] = val(s.Props[k])
+				}
+			}
+			if len(s.AnyOf) > 0 && s.branchCount(s.AnyOf, d) == 0 {
+				for _, k := range s.AnyOf[r.Intn(len(s.AnyOf))] {
+					d[k] = val(s.Props[k])
+				}
+			}
+		}
+	}
 	switch kind {
+	case "compound-violated":
+		switch {
+		case len(s.OneOf) > 0 && r.Bool():
+			// two branches at once: every sub-schema is satisfied, only the oneOf itself is not
+			for _, set := range s.OneOf[:2] {
+				for _, k := range set {
+					d[k] = val(s.Props[k])
+				}
+			}
+		case len(s.OneOf) > 0:
+			for _, set := range s.OneOf {
+				for _, k := range set {
+					if !contains(s.Required, k) {
+						delete(d, k)
+					}
+				}
+			}
+		case len(s.Not) > 0 && r.Bool():
+			d[s.Not[0]] = val(s.Props[s.Not[0]])
+		default:
+			for _, set := range s.AnyOf {
+				for _, k := range set {
+					delete(d, k)
+				}
+			}
+		}
 	case "conforming":
 	case "empty":
 		d = map[string]any{}
@@ -453,6 +565,9 @@ func c12Gen(c *core.Ctx, r *core.Rng, builtin map[string]miniSchema, policy stri
 		}
 		// template-data: one kind, placed wholly at one level or split across two
 		kind := core.Pick(r, []string{"conforming", "conforming", "conforming", "empty", "missing-required", "extra-key", "wrong-type"})
+		if len(schema.OneOf)+len(schema.AnyOf)+len(schema.Not) > 0 && r.Chance(2, 5) {
+			kind = "compound-violated" // every property is fine on its own; only oneOf / anyOf / not is not
+		}
 		if allGood {
 			kind = core.Pick(r, []string{"conforming", "conforming", "empty"})
 		}
@@ -843,7 +958,7 @@ func RunC12(c *core.Ctx) int {
 		"rule":               "one evaluation = one child run of the instrumented mockery on a generated world (1–3 packages; per package: template kind, schema location, schema availability incl. retrieval faults served by the simulated transport or the tree, require flag, template-data kind and placement) under one iteration policy; every world is run under asc, desc and random orders; non-trivial = some file must be rejected, or data sits at root level, or ≥2 packages; distinct = hash(tree digest, order-decision vector)",
 		"templates":          []string{"testify", "matryer", "file://", "http://", "https://"},
 		"schema_faults":      []string{"404", "500", "transport-error", "truncated", "empty", "not-json", "file-missing", "redirect (followed)", "redirect loop"},
-		"data_kinds":         []string{"conforming", "empty", "missing-required", "extra-key", "wrong-type", "lower-level override with wrong type"},
+		"data_kinds":         []string{"conforming", "empty", "missing-required", "extra-key", "wrong-type", "compound-violated (two oneOf branches at once, no branch, no anyOf branch, a key under not)", "lower-level override with wrong type"},
 		"placements":         []string{"root", "package", "interface", "configs", "split across two levels"},
 		"open_combination":   "require=false ∧ schema retrievable ∧ non-conforming data is run and counted (open-case-exit:*), never judged",
 		"instrumented_sites": rep.RangeSites,
